@@ -1,5 +1,6 @@
 """C07 - multi-annotator query returns distinct available pairs."""
 import ast
+from ..astutil import inline_temporaries as _it
 
 from ..astutil import FuncTree, dominates
 from ..common import norm_stmt, site_id
@@ -144,7 +145,7 @@ def run(p, report, tier):
         raise AnalysisError("MultiAnnotatorPoolQueryStrategy helpers vanished")
     # ---------------- R7.1
     for f in (vd, tc):
-        da = DefiniteAssignment(f.node).run()
+        da = DefiniteAssignment(_it(f.node)).run()
         report.add("R7.1", f.qual, "results definitely assigned on all 3x3 argument combinations", f"{f.file}:{f.node.lineno}",
                    not da.reports, detail="; ".join(f"{k} unbound where {v[1]}" for k, v in da.reports.items()))
     ok, why = c01.has_clip(vd.node, "batch_size")
@@ -253,7 +254,7 @@ def run(p, report, tier):
                    bool(carried), detail=", ".join(sorted(carried)))
         # the chosen pair is NaN afterwards: a NaN store indexed by the picks
         nan_masks = [n for n in ast.walk(L) if isinstance(n, ast.Assign) and c01.is_nan_expr(n.value)
-                     and isinstance(n.targets[0], ast.Subscript) and (index_names(n.targets[0]) & (rnames | acc))]
+                     and isinstance(n.targets[0], ast.Subscript) and (index_names(n.targets[0]) & c01.pick_derived(L, ff, rnames | acc))]
         report.add("R7.3", f.qual, f"chosen pair set to NaN after {site_id(S, 40)}", f"{f.file}:{S.lineno}", bool(nan_masks),
                    detail="NaN store indexed by the picks" if nan_masks else
                    "no NaN store indexed by the chosen pair: the pair can be selected again / is not NaN in later rows")
@@ -307,7 +308,7 @@ def run(p, report, tier):
     for f in (sq, q, g, sa.methods.get("_n_to_assign_annotators"), ie):
         if f is None:
             continue
-        da = DefiniteAssignment(f.node).run()
+        da = DefiniteAssignment(_it(f.node)).run()
         report.add("R7.1", f.qual, "all locals bound before use", f"{f.file}:{f.node.lineno}", not da.reports,
                    detail="; ".join(da.reports), nontrivial=False)
     report.assumptions += ["that n_annotators_per_sample is honoured numerically is not decided",
